@@ -64,7 +64,8 @@ def main():
         if a.keep:
             dst = V / "rewrites" / a.keep
             dst.mkdir(parents=True, exist_ok=True)
-            shutil.copy(d / "patch.diff", dst / "patch.diff")
+            if dst.resolve() != d.resolve():
+                shutil.copy(d / "patch.diff", dst / "patch.diff")
             meta["result"] = res
             (dst / "meta.json").write_text(json.dumps(meta, indent=1) + "\n")
         return 0
